@@ -530,13 +530,19 @@ func (s *subsetter) SubsetGlyf(oldOutlines *glyf.Outlines) *glyf.Outlines {
 
 	newOutlines.Widths = make([]funit.Int16, len(s.glyphs))
 	for newGid, oldGid := range s.glyphs {
-		newOutlines.Widths[newGid] = oldOutlines.Widths[oldGid]
+		// a font read from a file without "hmtx" table has no widths
+		if int(oldGid) < len(oldOutlines.Widths) {
+			newOutlines.Widths[newGid] = oldOutlines.Widths[oldGid]
+		}
 	}
 
 	if oldOutlines.Names != nil {
 		newOutlines.Names = make([]string, len(s.glyphs))
 		for newGid, oldGid := range s.glyphs {
-			newOutlines.Names[newGid] = oldOutlines.Names[oldGid]
+			// the "post" table of a file may list fewer names than there are glyphs
+			if int(oldGid) < len(oldOutlines.Names) {
+				newOutlines.Names[newGid] = oldOutlines.Names[oldGid]
+			}
 		}
 	}
 
